@@ -3351,3 +3351,38 @@ pub fn race_arc_family() -> Vec<Program> {
     }
     out
 }
+
+/// YINS: `thread::yield_now` inserted at every position of every spawned thread of small A-sc and
+/// LOCK programs (one yield; and one yield in each of two threads). A yield forces one switch and
+/// nothing else, so bounded and unbounded runs must still agree as C15 says.
+pub fn yield_ins_family(tier: &str) -> Vec<Program> {
+    let n = if tier == "quick" { 1 } else { 6 };
+    let pick = |x: Vec<Program>, n: usize| -> Vec<Program> {
+        let step = (x.len() / (n + 1)).max(1);
+        x.into_iter().skip(step).step_by(step).take(n).collect()
+    };
+    let mut bases = vec![];
+    bases.extend(pick(a_sc(1, 2, 2, 4, false), n));
+    bases.extend(pick(a_sc(1, 3, 1, 3, false), n));
+    bases.extend(pick(a_sc(2, 2, 2, 4, true), n));
+    bases.extend(pick(lock_family(1, 0, 2, 3, 6, true, true), n));
+    let mut out = vec![];
+    for b in &bases {
+        let nt = b.threads.len();
+        for t in 1..nt {
+            for pos in 0..=b.threads[t].len() {
+                let mut q = insert_op(b, t, pos, K::Yield.into());
+                q.name = format!("YINS-{}", b.name);
+                out.push(q.clone());
+                for t2 in (t + 1)..nt {
+                    for pos2 in 0..=b.threads[t2].len() {
+                        let mut q2 = insert_op(&q, t2, pos2, K::Yield.into());
+                        q2.name = format!("YINS2-{}", b.name);
+                        out.push(q2);
+                    }
+                }
+            }
+        }
+    }
+    out
+}
